@@ -78,6 +78,14 @@ def injections(draw):
         value = {"x": draw(st.sampled_from([{}, {"type": "string"}, True]))}
     else:
         value = draw(st.sampled_from([{}, {"type": "string"}, True, False, {"minimum": 1}]))
+    if draw(st.integers(0, 3)) == 0 and isinstance(schema, dict):
+        # the dialect annotation of a document says nothing about what statham supports
+        schema = dict(schema)
+        schema["$schema"] = draw(st.sampled_from(["http://json-schema.org/draft-06/schema#",
+                                                   "http://json-schema.org/draft-04/schema#",
+                                                   "http://json-schema.org/draft-07/schema#",
+                                                   "https://json-schema.org/draft/2019-09/schema",
+                                                   "http://json-schema.org/schema#"]))
     return {"mode": "inject", "schema": schema, "path": path, "keyword": kw, "value": value,
             "via_parse": use_definitions}
 
@@ -134,6 +142,12 @@ def cycles(draw):
         node = {"type": "object", "properties": {"next": edge, "v": {"type": "integer"}}}
         if draw(st.booleans()):
             node["title"] = f"Node{i}"
+        if n >= 2 and draw(st.integers(0, 5)) == 0:
+            # (a reference to ITSELF is refused by the loader as unresolvable - "is self-referential" - before
+            # statham sees anything; that is not a recursive schema but a broken reference)
+            # a node that is nothing but the reference (a loop of such nodes never reaches the parser: resolving the
+            # references itself does not terminate)
+            node = {"$ref": target}
         defs[f"n{i}"] = node
     style = draw(st.sampled_from(["root-refs", "root-is-node", "self"]))
     if style == "self" or (style == "root-is-node" and n == 1):
